@@ -155,10 +155,49 @@ func snapshotExclusion(doc *document.InternalDocument) string {
 		return findingMergeSplit
 	case mergedIntoRemovedParent(doc.RootObject()):
 		return findingMergeIntoRemoved
+	case removedTreeNodeWithRemovedAttr(doc.RootObject()):
+		return findingRemovedNodeAttr
 	case leakedGarbage(doc):
 		return findingGarbageLeak
 	}
 	return ""
+}
+
+// findingRemovedNodeAttr: a tree element that is itself REMOVED and carries a
+// removed attribute (RemoveStyle before the element was deleted): the original
+// document purges the attribute tombstone with the next collection that covers
+// it, BytesToSnapshot(SnapshotToBytes(d)) keeps it (`b="" rm=true` on the
+// removed <p>) - the decoded root does not register attribute tombstones of
+// tombstoned tree elements for collection. Same family as F42/F43; found by the
+// thorough tier at seed 3 (replays/known/F68-C09.json).
+const findingRemovedNodeAttr = "F68"
+
+func removedTreeNodeWithRemovedAttr(e crdt.Element) bool {
+	switch v := e.(type) {
+	case *crdt.Object:
+		for _, n := range v.RHTNodes() {
+			if removedTreeNodeWithRemovedAttr(n.Element()) {
+				return true
+			}
+		}
+	case *crdt.Array:
+		for _, n := range v.RGATreeList().AllNodes() {
+			if n.Element() != nil && removedTreeNodeWithRemovedAttr(n.Element()) {
+				return true
+			}
+		}
+	case *crdt.Tree:
+		for _, n := range v.Nodes() {
+			if n.IsRemoved() && n.Attrs != nil {
+				for _, a := range n.Attrs.Nodes() {
+					if a.IsRemoved() {
+						return true
+					}
+				}
+			}
+		}
+	}
+	return false
 }
 
 // removedTextAttr reports whether some text node holds a tombstoned
